@@ -43,8 +43,9 @@ type gState struct {
 	cycles  map[string]int
 	failure *c14Failure
 	// values decoded in the previous cycle, kept across Recycle/Release: they must never change
-	prevGot  [][]byte
-	prevWant [][]byte
+	prevGot   [][]byte
+	prevWant  [][]byte
+	scratches [][]byte
 }
 
 type c14Failure struct {
@@ -212,6 +213,15 @@ func (s *gState) cycleSkipDecoders(i int) {
 	}
 	sd.Release()
 	dr.Release(nil)
+	// the exported SkipN of a decoder fresh from the pool starts at its reader's current position
+	nb := &doubles.NBReader{B: stream}
+	d2 := thrift.NewSkipDecoder(nb)
+	if b, err := d2.SkipN(3); err != nil || len(stream) >= 3 && !bytes.Equal(b, stream[:3]) {
+		if len(stream) >= 3 {
+			s.fail("concurrent-skipdecoder-bytes", i, "SkipN(3) on a decoder fresh from the pool returned %x (err=%v), want %x: state of a previous user leaked", b, err, stream[:3])
+		}
+	}
+	d2.Release()
 	s.cycles["skip-decoders"]++
 }
 
@@ -275,6 +285,43 @@ func (s *gState) cycleTTHeader(i int) {
 	dr.Release(nil)
 	if err != nil || d.SeqID != int32(i) || d.IntInfo[uint16(s.g)] != p.IntInfo[uint16(s.g)] || d.StrInfo["k"] != p.StrInfo["k"] {
 		s.fail("concurrent-ttheader-bytes", i, "stream-backed TTHeader round trip returned foreign data (err=%v)", err)
+	}
+	// a hand-built frame that carries transform ids (this package's encoder never writes any)
+	nt := 1 + s.r.Intn(6)
+	info := []byte{0, byte(nt)}
+	for k := 0; k < nt; k++ {
+		info = append(info, byte(s.g+k))
+	}
+	info = append(info, 0x10, 0, 1)
+	info = ref.U16(info, uint16(s.g))
+	info = ref.TTHStr2(info, string(taggedBytes(s.g, i, 3, 1+s.r.Intn(20))))
+	for len(info)%4 != 0 {
+		info = append(info, 0)
+	}
+	f := ref.TTHEncode(uint32(10+len(info)), 0x1000, uint16(s.g), int32(i), uint16(len(info)/4), info)
+	d2, err := ttheader.DecodeFromBytes(ctx, f)
+	if err != nil || d2.SeqID != int32(i) || d2.IntInfo[uint16(s.g)] != string(taggedBytes(s.g, i, 3, len(d2.IntInfo[uint16(s.g)]))) {
+		s.fail("concurrent-ttheader-bytes", i, "frame with %d transform ids decoded wrongly (err=%v)", nt, err)
+	}
+	// a caller-owned, empty slice in front of a power-of-two scratch area handed to a bytes reader
+	scratch := make([]byte, 4096)
+	for k := range scratch {
+		scratch[k] = byte(s.g)
+	}
+	ttheader.DecodeFromBytes(ctx, scratch[:0])
+	rd := bufiox.NewBytesReader(scratch[:0])
+	rd.Next(1)
+	rd.Release(nil)
+	s.scratches = append(s.scratches, scratch)
+	if len(s.scratches) > 8 {
+		old := s.scratches[0]
+		s.scratches = s.scratches[1:]
+		for k := range old {
+			if old[k] != byte(s.g) {
+				s.fail("concurrent-caller-memory", i, "a caller-owned scratch buffer given (empty) to a bytes reader was overwritten at %d: it ended up in the shared pool", k)
+				break
+			}
+		}
 	}
 	s.cycles["ttheader"]++
 }
